@@ -631,13 +631,116 @@ fn op_strategy() -> impl Strategy<Value = Op> {
     ]
 }
 
+/// Deep stacks: heights far beyond what the history check reaches (up to 600), rotations of windows of every size
+/// (resolved monotonically into 0..=height), pushes and pops in between; model = Vec of tags.
+pub struct DeepStackCheck;
+
+#[derive(Clone, Debug, Serialize, Deserialize, PartialEq)]
+pub enum DeepOp {
+    /// rotate(n) with n = frac * (height + 1) >> 16
+    Rotate(u16),
+    /// rotate(height - back) (windows just below the whole stack), skipped when back > height
+    RotateNearFull(u8),
+    Push,
+    Pop,
+}
+
+impl Check for DeepStackCheck {
+    type Case = (u16, Vec<DeepOp>);
+    fn name(&self) -> String {
+        "C04/deep-stack".into()
+    }
+    fn classes(&self) -> &'static [&'static str] {
+        &["height>128", "partial window > 128", "partial window > 256", "whole-stack rotation at height > 128"]
+    }
+    fn oracle(&self, case: &Self::Case) -> Outcome {
+        let mut classes = 0u64;
+        let r = run_deep(case.0 as usize, &case.1, &mut classes);
+        Outcome::new(classes & 0b10 != 0, classes, r)
+    }
+}
+
+fn run_deep(height: usize, ops: &[DeepOp], classes: &mut u64) -> Result<(), crate::engine::Failure> {
+    let mut ps = Populations::<RealP>::new();
+    let mut model: Vec<u32> = Vec::new();
+    let mut next = 0u32;
+    let mk = |t: u32| vec![Individual::<RealP>::new_unevaluated(vec![t as f64]), Individual::<RealP>::new_unevaluated(vec![-(t as f64)])];
+    for _ in 0..height {
+        ps.push(mk(next));
+        model.push(next);
+        next += 1;
+    }
+    let read = |ps: &Populations<RealP>| -> Vec<u32> { (0..ps.len()).rev().map(|d| ps.try_peek(d).map(|p| if p.len() == 2 && p[1].solution()[0] == -p[0].solution()[0] { p[0].solution()[0] as u32 } else { u32::MAX }).unwrap_or(u32::MAX)).collect() };
+    for (step, op) in ops.iter().enumerate() {
+        let h = model.len();
+        if h > 128 {
+            *classes |= 1;
+        }
+        let n = match op {
+            DeepOp::Rotate(f) => Some(((*f as usize) * (h + 1)) >> 16),
+            DeepOp::RotateNearFull(b) => h.checked_sub(*b as usize),
+            DeepOp::Push => {
+                ps.push(mk(next));
+                model.push(next);
+                next += 1;
+                None
+            }
+            DeepOp::Pop => {
+                if h > 0 {
+                    let got = catch(|| ps.pop());
+                    let want = model.pop().unwrap();
+                    match got {
+                        Ok(p) => ensure_that!(p.len() == 2 && p[0].solution()[0] == want as f64, "C04 deep pop", "step {step}: pop() at height {h} returned a population tagged {:?}, the model's top is {want}", p.first().map(|i| i.solution()[0])),
+                        Err(e) => fail!("C04 pop panics", "step {step}: pop() panicked at height {h}: {e}"),
+                    }
+                }
+                None
+            }
+        };
+        if let Some(n) = n {
+            if n > 128 && n < h {
+                *classes |= 2;
+            }
+            if n > 256 && n < h {
+                *classes |= 4;
+            }
+            if n == h && h > 128 {
+                *classes |= 8;
+            }
+            if let Err(e) = catch(|| ps.rotate(n)) {
+                fail!("C04 rotate panics within height", "step {step}: rotate({n}) panicked at height {h}: {e}");
+            }
+            if n > 0 {
+                model[h - n..h].rotate_right(1);
+            }
+        }
+        ensure_that!(ps.len() == model.len(), "C04 len", "step {step} {op:?}: len() = {} but the model stack has height {}", ps.len(), model.len());
+        let got = read(&ps);
+        if got != model {
+            let first = got.iter().zip(&model).position(|(a, b)| a != b);
+            fail!("C04 rotate window", "step {step} {op:?} (n = {n:?}) at height {h}: the stack differs from the model from position {first:?} (bottom = 0): got {:?}.. want {:?}..", first.map(|i| &got[i..(i + 4).min(got.len())]), first.map(|i| &model[i..(i + 4).min(model.len())]));
+        }
+    }
+    Ok(())
+}
+
+fn deep_strategy() -> impl Strategy<Value = (u16, Vec<DeepOp>)> {
+    let op = prop_oneof![
+        4 => any::<u16>().prop_map(DeepOp::Rotate),
+        3 => (0u8..12).prop_map(DeepOp::RotateNearFull),
+        1 => Just(DeepOp::Push),
+        1 => Just(DeepOp::Pop),
+    ];
+    (prop_oneof![0u16..600, 120u16..140, 250u16..264], proptest::collection::vec(op, 1..12))
+}
+
 pub fn run_all(ctx: &mut Ctx, replay: Option<&Path>) {
     ctx.rule("case = history of population-stack operations executed against Populations (inside a State) and a Vec<Vec<_>> model in lock-step, with a full probe of len/is_empty/try_peek(0..h+1)/get_current/peek/current after every step; rotations of the top n populations for every n in 0..=height (n = 0 is the identity, also through the component on an empty stack); non-trivial = the history reaches height >= 3 and contains a rotate(n) with 2 <= n <= height; distinct by history");
     ctx.assume("rotate(n > height) is outside the stated domain and not generated for the direct call; RotatePopulations(n > height) must be an Err; rotating the top 0 populations (also on an empty stack) is the identity and must be accepted");
     ctx.assume("Clear/Duplicate/Interleave/Split components are only applied when their implicit preconditions hold (a current population; two populations; >= 2 evaluated individuals)");
     let k = StackCheck;
     if let Some(p) = replay {
-        ctx.replay_file(&k, p);
+        let _ = ctx.replay_file(&k, p) || ctx.replay_file(&DeepStackCheck, p);
         return;
     }
     ctx.regressions(&k);
@@ -645,4 +748,7 @@ pub fn run_all(ctx: &mut Ctx, replay: Option<&Path>) {
     ctx.exhaustive(&k, &format!("all histories of length <= {l} over a 17-operation alphabet (3 tagged populations incl. the empty one, rotate(1..4), in-place edits, utility components)"), Histories::new(exhaustive_alphabet(), l));
     let n = ctx.tier.pick(3000, 50_000);
     ctx.random(&k, proptest::collection::vec(op_strategy(), 0..100), n);
+    ctx.rule("deep stacks: a stack of 0..600 tagged two-individual populations, then up to 11 rotations (window size anywhere in 0..=height, and windows of height-0..11), pushes and pops, compared with a Vec model after every step; non-trivial = a partial window (n < height) of more than 128 populations was rotated");
+    let n = ctx.tier.pick(1500, 30_000);
+    ctx.random(&DeepStackCheck, deep_strategy(), n);
 }
